@@ -50,6 +50,18 @@ Theorem C17_never_interleaved : forall (body : msg -> list N) (evs : list dev), 
             match d_lock s with Some (_, m, x :: rest) => p ++ x :: rest = enc body m | _ => p = [] end.
 Proof. exact driver_frames. Qed.
 
+(* end to end on the plugin's output: however the node splits what it has received into reads, its decoder yields exactly the
+   completed messages (framing theorem composed with the writer theorem) *)
+Theorem C17_node_reads_whole_messages : forall (body : msg -> list N) (evs : list dev) (chunks : list (list N)),
+  (forall m, no_nl (body m)) ->
+  let s := drun body evs dinit in
+  concat chunks = d_out s ->
+  fst (feed [] chunks) = map body (d_done s).
+Proof.
+  intros body evs chunks Hb s Hc. rewrite feed_chunking, Hc.
+  destruct (driver_frames body evs Hb) as [p [Hf _]]. fold s in Hf. rewrite Hf. reflexivity.
+Qed.
+
 (* at every moment of every schedule: no request id is answered twice, and only requested ids are answered *)
 Theorem C17_at_most_one_reply : forall (body : msg -> list N) (evs : list dev),
   let s := drun body evs dinit in
@@ -70,6 +82,20 @@ Theorem C17_every_request_is_answered : forall (body : msg -> list N) (evs : lis
     quiescent s = true /\ Permutation (d_req s) (replies (d_done s)) /\ Permutation (d_emit s) (logs (d_done s)) /\
     d_req s = d_req (drun body evs dinit).
 Proof. exact driver_can_always_finish. Qed.
+
+(* ... on EVERY schedule, not only a cooperative one. Without new requests or log lines, a run in which every step does
+   something (changes the state) has at most [pot s] steps — the driver loop, the handlers' replies and the two writers cannot
+   go on for ever — and the only states in which nothing more can be done are the quiescent ones, where (C17_exactly_one_reply_
+   when_quiet) every request has its reply on the wire. So every maximal run ends with every request answered exactly once. *)
+Theorem C17_runs_without_input_are_bounded : forall (body : msg -> list N) (evs : list dev) (s : dst),
+  forallb (fun e => negb (is_input e)) evs = true ->
+  (forall k e, nth_error evs k = Some e -> effective body (drun body (firstn k evs) s) e) ->
+  (length evs <= pot body s)%nat.
+Proof. exact driver_effective_runs_are_bounded. Qed.
+
+Theorem C17_nothing_left_to_do_means_all_answered : forall (body : msg -> list N) (s : dst),
+  (forall e, is_input e = false -> ~ effective body s e) -> quiescent s = true.
+Proof. exact driver_stuck_only_when_quiescent. Qed.
 
 (* what the correspondence check of the driver engine compares the real replies with ([run_driver], the machine under the
    schedule the harness forces: all requests dispatched, handlers released one by one, each reply written before the next
